@@ -1243,9 +1243,37 @@ func TestVerif_C30(t *testing.T) {
 			}
 		}
 	}
+	// (a3) the start-up purge of tasks with invalid destinations (tagreplication store) and an Add whose
+	// channel send finds the channel full
+	for _, inv := range []string{"k0", "k1", "k0,k1"} {
+		for _, mid := range []string{"crash", "close"} {
+			for _, f := range [][]string{nil, {"op", "fin", "k0", "fail"}, {"op", "fin", "k1", "ok"}} {
+				cfg := c30Cfg{store: "tr", capIn: 1, capRe: 1, wIn: 2, wRe: 1, ri: 1}
+				ops := [][]string{{"op", "add", "k0", "0"}, {"op", "add", "k1", "0"}, {"op", "add", "k2", "1"}}
+				if f != nil {
+					ops = append(ops, f)
+				}
+				ops = append(ops, []string{"op", mid}, []string{"op", "start", "inv=" + inv}, []string{"op", "adv", "2"}, []string{"op", "poll"})
+				c30Run(env, tr, verifh.Case{Cfg: cfg.toks(), Ops: ops})
+				tr.Count("purge_cases", 1)
+			}
+		}
+	}
+	for _, store := range []string{"wb", "tr"} {
+		for _, x := range [][]string{nil, {"op", "fin", "k0", "ok"}, {"op", "adv", "1"}, {"op", "poll"}, {"op", "addb", "k3", "0"}} {
+			cfg := c30Cfg{store: store, capIn: 1, capRe: 1, wIn: 1, wRe: 1, ri: 1}
+			ops := [][]string{{"op", "add", "k0", "0"}, {"op", "add", "k1", "0"}, {"op", "addb", "k2", "0"}}
+			if x != nil {
+				ops = append(ops, x)
+			}
+			ops = append(ops, []string{"op", "adde", "k2"}, []string{"op", "adde", "k3"})
+			c30Run(env, tr, verifh.Case{Cfg: cfg.toks(), Ops: ops})
+			tr.Count("send_overflow_cases", 1)
+		}
+	}
 	// (b) random histories
 	r := verifh.NewRand(verifh.Seed(), "c30")
-	for i := 0; i < verifh.Scale(250, 12000); i++ {
+	for i := 0; i < verifh.Scale(200, 12000); i++ {
 		c := c30RandCase(r, tr)
 		if i < 2 {
 			tr.Sample(fmt.Sprint(c.Cfg, c.Ops))
